@@ -74,6 +74,17 @@ RULE = ("histories over (mti, sti, enabled): all period pairs in {0..12}^2 (comp
         "ONE PCE500Emulator.run(n) / CoreRuntime::step(n) call per chunk; at the end of every call cycle counter, next "
         "targets, ISR bits 0/1 and (PCE500Emulator) the cycles at which the scheduler reported firings are compared with "
         "the single-stepped execution of the same implementation. "
+        "Host life-cycle layer (round 5, c13_live.py): per pair (quick 2 + 1, thorough 24 + 6) and for larger periods "
+        "(a) 'async' cases -- the public device task AsyncTimerKeyboardTask::run / run_for spawned on an AsyncDriver "
+        "that is advanced in slices of 1..2*period cycles, the host acting on the shared CoreRuntime between slices: "
+        "ISR acknowledgements, timer.reset(now), period reprogramming + reset, same-point snapshot round trips and "
+        "restores of earlier snapshot_info()s (targets nearer than / behind the ones the task last saw); after every "
+        "slice next targets and ISR bits 0/1 must be where per-cycle ticking leaves them; (b) 'rollback' cases -- a "
+        "PCE500Emulator ticked through _tick_timers() whose state is captured with the real save_snapshot, which keeps "
+        "running (timers fire, bits acknowledged or left pending) and is later rolled back with the real load_snapshot "
+        "into the same used instance (1 of 5: a fresh one), the snapshot file loaded as written, without the metadata "
+        "entries the Rust core does not write, or without a generated subset of the entries load_snapshot treats as "
+        "optional; non-trivial = >= 2 fires and a re-arm / a fire after the rollback. "
         "Non-trivial = some active timer crosses >= 2 boundaries in the history, or a tick lands exactly on a "
         "boundary, or one gap skips > 1 period (machine layer: >= 2 target movements); distinct = (mti, sti, "
         "enabled, hash of the op list / program+step schedule).")
